@@ -237,6 +237,15 @@ def expected2 (rows : Rows) (argv : List String) : Option String :=
     match r with
     | some (b, _) => some (ok (pairs b))
     | none => none
+  | "subset" :: fl =>
+    -- cmd/subset.go (names or 0-based indices on the command line, `-r` keeps the complement; no pattern matching)
+    let rev := flag fl "-r" || flag fl "--revert"
+    let given := fl.filter fun a => !a.startsWith "-"
+    if flag fl "--indices" then
+      match given.mapM String.toNat? with
+      | none => some bad
+      | some is => some (ok ((rows.zipIdx.filter fun (_, i) => is.contains i != rev).map Prod.fst))
+    else some (ok (rows.filter fun r => given.contains r.1 != rev))
   | ["stats", "gaps", "--from-start"] =>
     some ("rc=0 out=" ++ String.join (rows.map fun r => r.1 ++ " " ++ toString (numGapsFromStart r.2) ++ "|"))
   | ["stats", "gaps", "--from-end"] =>
